@@ -13,7 +13,6 @@ EXTENDS Bytes, TLC
 
 Fns == {"html", "html_attr", "js", "css", "url"}
 
-S(str) == str   \* readability only
 
 AMP == 38  LT == 60  GT == 62  QUOT == 34  APOS == 39  BSL == 92  PCT == 37
 SEMI == 59 HASH == 35
